@@ -7,7 +7,7 @@ From Verif Require Import lib.Wire c03.Int64 c03.Model c03.Spec c03.Witness
      c03.Proofs_SetPeer c03.Proofs_Hist2 c03.Proofs_Mon2 c03.Proofs_Keys c03.Proofs_Refs c03.Proofs_RefInv c03.Proofs_GC
      c03.Proofs_Prio c03.Proofs_Cap c03.Proofs_CapInv c03.Proofs_Cap2 c03.Proofs_Just c03.Proofs_Just2 c03.Proofs_Ans c03.Proofs_Ans2 c03.Proofs_Full.
 (* the concurrent development is referred to by qualified names (Conc.run ...): it reuses names of the sequential one *)
-From Verif Require c03.Conc c03.Proofs_Conc c03.Witness_Conc.
+From Verif Require c03.Conc c03.Proofs_Conc c03.Witness_Conc c03.ConcReg c03.Proofs_ConcReg.
 Import ListNotations.
 Local Open Scope Z_scope.
 
@@ -489,4 +489,64 @@ Proof. vm_compute. discriminate. Qed.
 Example conc_monitor_rejects_residue :
   Conc.mon_conc (Conc.mkCase [] [(10%nat, mkStat 8 0 0 0 0 0, [0%nat; 1%nat]); (11%nat, stat0, [0%nat; 1%nat])]
                    [(0%nat, (0, 0), mkStat 13 0 0 0 0 0)]) <> [].
+Proof. vm_compute. discriminate. Qed.
+
+(* ---- per-peer sub-scopes: lookup-or-create is ONE atomic step (ConcReg.v) ------------------------
+   protocolScope.getPeerScope / serviceScope.getPeerScope under s.Lock().  A step of the registry
+   LTS keeps every binding, binds different keys to different sub-scopes, is a step of the LTS of
+   Conc.v, and a SetProtocol / SetService beginning on an idle stream charges the stream to the
+   sub-scope REGISTERED for its (protocol | service, peer) key *)
+Theorem c03c_attach_uses_registered_subscope : forall lim st io st',
+  Proofs_ConcReg.reg_ok (ConcReg.r_reg st) (ConcReg.r_next st) -> ConcReg.rstep lim st io = Some st' ->
+  Proofs_ConcReg.reg_ok (ConcReg.r_reg st') (ConcReg.r_next st') /\
+  (forall k x, ConcReg.rfind k (ConcReg.r_reg st) = Some x -> ConcReg.rfind k (ConcReg.r_reg st') = Some x) /\
+  (exists o, Conc.gstep lim (ConcReg.r_cs st) (fst io, o) = Some (ConcReg.r_cs st')) /\
+  (forall key outer drop rest, snd io = ConcReg.RAttach key outer drop rest ->
+     ConcReg.is_idle (ConcReg.r_cs st) (fst io) = true ->
+     exists id, ConcReg.rfind key (ConcReg.r_reg st') = Some id /\
+                Conc.gstep lim (ConcReg.r_cs st) (fst io, Conc.OMove [outer; id] drop (id :: rest)) = Some (ConcReg.r_cs st')).
+Proof. exact Proofs_ConcReg.rstep_spec. Qed.
+Print Assumptions c03c_attach_uses_registered_subscope.
+
+(* every schedule of the registry LTS: the usage invariant of Conc.v holds and no two keys share a
+   sub-scope *)
+Theorem c03c_one_subscope_per_key : forall lim hs first sched st,
+  (forall s, lim_ok (lim s)) -> forallb Conc.fresh hs = true ->
+  ConcReg.rrun lim (ConcReg.init_rs hs first) sched = Some st ->
+  Proofs_Conc.cinv lim (ConcReg.r_cs st) /\
+  (forall k1 k2 id, ConcReg.rfind k1 (ConcReg.r_reg st) = Some id -> ConcReg.rfind k2 (ConcReg.r_reg st) = Some id -> k1 = k2).
+Proof. exact Proofs_ConcReg.reg_reach. Qed.
+Print Assumptions c03c_one_subscope_per_key.
+
+(* at quiescence the registered sub-scope of every (protocol | service, peer) key reports exactly the
+   sum of the streams charged to it, within its limit *)
+Theorem c03c_subscope_quiescent_exact : forall lim hs first sched st key id,
+  (forall s, lim_ok (lim s)) -> forallb Conc.fresh hs = true ->
+  ConcReg.rrun lim (ConcReg.init_rs hs first) sched = Some st -> Conc.quiescent (ConcReg.r_cs st) = true ->
+  ConcReg.rfind key (ConcReg.r_reg st) = Some id ->
+  Conc.c_use (ConcReg.r_cs st) id = Conc.quiet_usage (Conc.holders_of (ConcReg.r_cs st)) id /\
+  nonneg (Conc.c_use (ConcReg.r_cs st) id) /\ fits (lim id) (Conc.c_use (ConcReg.r_cs st) id).
+Proof. exact Proofs_ConcReg.reg_quiet. Qed.
+Print Assumptions c03c_subscope_quiescent_exact.
+
+(* non-vacuity: two streams of one peer attach to the same protocol at once; both are charged to the one
+   registered sub-scope (scope 50), whose limit of 1 stream refuses the second; and the monitor rejects
+   a registered sub-scope that under-reports (a stream charged to an orphan) *)
+Example conc_registry_two_first_attaches :
+  match ConcReg.rrun (fun s => match s with 50%nat => mkLimit 100 1 1 1 4 4 4 4 | _ => mkLimit 100 9 9 9 9 9 9 9 end)
+          (ConcReg.mkRS (Conc.mkCS (fun s => match s with 10%nat | 11%nat => mkStat 0 1 0 0 0 0 | 1%nat => mkStat 0 2 0 0 0 0 | _ => stat0 end)
+                           [Conc.mkCH 10 [1%nat] (mkStat 0 1 0 0 0 0) false Conc.Idle; Conc.mkCH 11 [1%nat] (mkStat 0 1 0 0 0 0) false Conc.Idle])
+                        [] 50)
+          [(0%nat, ConcReg.RAttach 7 2 [] [2%nat; 1%nat]); (1%nat, ConcReg.RAttach 7 2 [] [2%nat; 1%nat]);
+           (0%nat, ConcReg.RPlain Conc.ODone); (1%nat, ConcReg.RPlain Conc.ODone); (0%nat, ConcReg.RPlain Conc.ODone); (1%nat, ConcReg.RPlain Conc.ODone)] with
+  | Some st => (ConcReg.r_reg st, zstat (Conc.c_use (ConcReg.r_cs st) 50), zstat (Conc.c_use (ConcReg.r_cs st) 2),
+                option_map Conc.h_ph (nth_error (Conc.c_hs (ConcReg.r_cs st)) 1))
+  | None => ([], [], [], None)
+  end = ([(7%nat, 50%nat)], [0; 1; 0; 0; 0; 0], [0; 2; 0; 0; 0; 0],
+         Some (Conc.Drop [2%nat] (KStat (mkStat 0 1 0 0 0 0)) (Some (mkStat 0 1 0 0 0 0, [1%nat])))).
+Proof. vm_compute. reflexivity. Qed.
+
+Example conc_monitor_rejects_orphan_subscope :
+  Conc.mon_conc (Conc.mkCase [] [(10%nat, mkStat 0 1 0 0 0 0, [1%nat; 50%nat; 2%nat]); (11%nat, mkStat 0 1 0 0 0 0, [1%nat; 50%nat; 2%nat])]
+                   [(50%nat, (8, 7), mkStat 0 1 0 0 0 0)]) <> [].
 Proof. vm_compute. discriminate. Qed.
